@@ -11,7 +11,9 @@
                            (inbound.go Response, Arg2Writer/Arg3Writer -> reqres.go argWriter ->
                            fragmenting_writer.go BeginArgument/Write/Flush/Close -> reqres.go
                            newFragment/flushFragment/failed, inbound.go doneSending,
-                           SendSystemError, SetApplicationError, Blackhole)
+                           SendSystemError, SetApplicationError, Blackhole), and the helper layer
+                           arguments.go ArgWriteHelper.write (NewArgWriter(..).Write / WriteJSON) as
+                           one more action on the open writer ([HHelperWrite], Model/ArgHelper.v)
      expiry goroutine      one per dispatched call (inbound.go dispatchInbound `go func`):
                            ctx.Done -> inboundExpired | errCh -> cancel + inboundExpired
      deadline timer        context.WithTimeout of newIncomingContext
@@ -38,7 +40,7 @@
 
    No proofs here (Proofs/RespWireP.v). *)
 From Coq Require Import ZArith List Bool.
-From Verif Require Import Base.Wire Spec.WireOk.
+From Verif Require Import Base.Wire Spec.WireOk Model.ArgHelper.
 Import ListNotations.
 Local Open Scope Z_scope.
 
@@ -308,6 +310,11 @@ Inductive label :=
 | HSysErr (id : Z) (full : bool)      (* response.SendSystemError *)
 | HSetAppErr (id : Z)
 | HBlackhole (id : Z)
+| HHelperWrite (id : Z) (ok fullfrag : bool)
+                                      (* the tail of arguments.go ArgWriteHelper.write on the open arg writer, after its
+                                         f() (Write / json Encode; the fragments it flushed are HFlush _ true steps) returned:
+                                         ok -> w.writer.Close(); not ok (f failed ABOVE the transport: a value that cannot be
+                                         encoded, ...) -> the error is returned and the writer is left alone *)
 (* timers / expiry goroutine of call id *)
 | Deadline (id : Z)
 | ExpireCtx (id : Z)
@@ -354,6 +361,21 @@ Definition arg_writer (st : state) (id : Z) (c : call) (k : Z) : state :=
              commit st id (ret (begun c) 0) false
        end.
 
+(* fragmenting_writer.go Close (the call record is at PIdle) *)
+Definition hclose (st : state) (id : Z) (c : call) (fullfrag : bool) : option state :=
+  if f_err c then Some (commit st id (ret c 1) false)
+  else match f_state c with
+       | FInLast =>
+           if negb (f_cur c) then None
+           else Some (flush1 st id (upd_f c FComplete (f_err c) (f_cur c) (f_first c)) true)
+       | FInArg =>
+           let c := upd_f c FWaiting (f_err c) (f_cur c) (f_first c) in
+           if negb fullfrag then Some (commit st id (ret c 0) false)
+           else if negb (f_cur c) then None
+           else Some (flush1 st id c false)
+       | _ => Some (commit st id (ret (set_ferr c) 1) false)      (* errNotWritingArgument *)
+       end.
+
 Definition hstep (st : state) (id : Z) (c : call) (l : label) : option state :=
   match l, h_pc c with
   | HStart _ ok, PNotStarted =>
@@ -389,19 +411,7 @@ Definition hstep (st : state) (id : Z) (c : call) (l : label) : option state :=
         let '(c1, chk) := failed_call c in
         Some (commit st id (ret (upd_f c1 (f_state c1) true false (f_first c1)) 1) chk)
       else Some (commit st id (ret (upd_f c (f_state c) (f_err c) true false) 0) false)
-  | HClose _ fullfrag, PIdle =>
-      if f_err c then Some (commit st id (ret c 1) false)
-      else match f_state c with
-           | FInLast =>
-               if negb (f_cur c) then None
-               else Some (flush1 st id (upd_f c FComplete (f_err c) (f_cur c) (f_first c)) true)
-           | FInArg =>
-               let c := upd_f c FWaiting (f_err c) (f_cur c) (f_first c) in
-               if negb fullfrag then Some (commit st id (ret c 0) false)
-               else if negb (f_cur c) then None
-               else Some (flush1 st id c false)
-           | _ => Some (commit st id (ret (set_ferr c) 1) false)      (* errNotWritingArgument *)
-           end
+  | HClose _ fullfrag, PIdle => hclose st id c fullfrag
   | HDone _, PDone =>
       let '(c1, chk) := done_sending c in
       Some (commit st id (ret c1 (if f_err c1 then 1 else 0)) chk)
@@ -410,16 +420,23 @@ Definition hstep (st : state) (id : Z) (c : call) (l : label) : option state :=
       else
         let st := if g_dones c then add_misused st id else st in
         let c := upd_w c (w_err c) WComplete (rd_err c) in
+        (* the error frame is queued FIRST (connection.go SendSystemError: refused only by a
+           closed connection or a full buffer), then doneSending shuts the exchange down --
+           its removal may close a draining connection (checkExchanges) *)
+        let '(st1, ok) := conn_send_syserr st id full in
         let '(c1, chk) := done_sending c in
-        let st1 := commit st id c1 chk in
-        let '(st2, ok) := conn_send_syserr st1 id full in
-        Some (commit st2 id (ret c1 (if ok then 0 else 1)) false)
+        Some (commit st1 id (ret c1 (if ok then 0 else 1)) chk)
   | HSetAppErr _, PIdle =>
       match w_state c with
       | PreArg3 | WComplete => let '(c1, chk) := failed_call c in Some (commit st id (ret c1 1) chk)
       | _ => Some (commit st id (ret c 0) false)
       end
   | HBlackhole _, PIdle => Some (commit st id (cancel_call c) false)
+  | HHelperWrite _ ok fullfrag, PIdle =>
+      (* arguments.go ArgWriteHelper.write after f(): `if err != nil { return err }; return w.writer.Close()`
+         (Model/ArgHelper.v helper_write, tied to the source by go2v): the writer is closed only when f succeeded *)
+      if helper_closes ok then hclose st id c fullfrag
+      else Some (commit st id (ret c 1) false)
   | _, _ => None
   end.
 
@@ -481,7 +498,8 @@ Definition step (st : state) (l : label) : option state :=
       | _ => None
       end
   | HStart id _ | HResp id | HReadFail id _ | HArgWriter id _ | HFlush id _ | HFlushSel id _
-  | HNewFrag id | HClose id _ | HDone id | HSysErr id _ | HSetAppErr id | HBlackhole id =>
+  | HNewFrag id | HClose id _ | HDone id | HSysErr id _ | HSetAppErr id | HBlackhole id
+  | HHelperWrite id _ _ =>
       with_call st id (fun c => hstep st id c l)
   | Deadline id =>
       with_call st id (fun c =>
@@ -572,6 +590,7 @@ Definition dec_label (op a b : Z) : option label :=
   if op =? 19 then Some (HSysErr a (bz b)) else
   if op =? 20 then Some (HSetAppErr a) else
   if op =? 21 then Some (HBlackhole a) else
+  if op =? 22 then Some (HHelperWrite a (bz (b mod 2)) (bz (b / 2))) else
   if op =? 30 then Some (Deadline a) else
   if op =? 31 then Some (ExpireCtx a) else
   if op =? 32 then Some (ExpireErr a) else
